@@ -74,7 +74,7 @@ Section EquivExtend.
   Ltac eve := cbv -[Z.add Z.sub Z.mul Z.div Z.modulo Z.eqb Z.ltb Z.leb Z.max Z.min Z.land Z.to_nat Z.of_nat W64 ISIZE_MAX
                   release esz ealign needs_drop is_pow2 layout_ok
                   is_default len capacity alignment vec_handle hdr_block reserve
-                  push iter_next extend_loop
+                  push iter_next extend_loop ints_of map pop_script A_N
                   get_block put_block set_handle
                   nth_error heap vecs].
 
@@ -86,6 +86,16 @@ Section EquivExtend.
   (* the continuation after the loop does not look at the hidden iterator *)
   Definition it_blind (K : env -> state -> AnsM) (v : nat) (it0 : val) : Prop :=
     forall vs1 vs2 s, K (ENVE v it0 vs1 false) s = K (ENVE v it0 vs2 false) s.
+
+  Lemma iter_next_rest sc s o sc' s1 :
+    iter_next sc s = (Val (o, sc'), s1) -> sc' = snd (pop_script sc A_N).
+  Proof.
+    unfold iter_next. destruct (pop_script sc A_N) as [x sc0]. cbn [snd].
+    destruct (x =? A_P); [cbv; discriminate|].
+    destruct (x =? A_S); cbv; intros E; inversion E; reflexivity.
+  Qed.
+  Lemma iter_next_nil s e sc' s1 : iter_next [] s <> (Val (Some e, sc'), s1).
+  Proof. cbv. discriminate. Qed.
 
   Lemma loop_equivE v it0 kr K (HK : it_blind K v it0) : forall k sc vs F s,
     vs = map VInt sc ->
@@ -99,33 +109,24 @@ Section EquivExtend.
     match goal with |- context [xstmt (40 + S F) ?w] => change w with WHE end.
     remember (xstmt (40 + S F) WHE) as REC eqn:EREC.
     cbn [extend_loop]. cbv [ENVE after_loopE bind ret] in *.
-    destruct sc as [|a sc]; cbn [map].
-    - (* the script is over: the iterator answers None *)
-      eve. red1.
-      destruct (iter_next cfg [] s) as [[[o sc']| | | | |] s1] eqn:En; red1; try reflexivity.
-      destruct o as [e|]; red1.
-      + (* (an empty script never answers Some) *)
-        exfalso. revert En. cbv [iter_next pop_script A_N A_P A_S Z.eqb Pos.eqb bind ret emit]. cbv. discriminate.
-      + subst REC. change (40 + S F)%nat with (S (40 + F)).
-        cbv [WHE extend__MiniVec__extend_2_ast fn_body]. rewrite exec_while.
-        remember (xstmt (40 + F)) as REC eqn:EREC.
-        eve. apply HK.
-    - remember (map VInt sc) as vs' eqn:Evs.
-      eve. red1.
-      destruct (iter_next cfg (a :: sc) s) as [[[o sc']| | | | |] s1] eqn:En; red1; try reflexivity.
-      assert (Hsc : sc' = sc).
-      { revert En. cbv [iter_next pop_script bind ret emit].
-        destruct (a =? A_P); [cbv; discriminate|].
-        destruct (a =? A_S); cbv; intros E; inversion E; reflexivity. }
-      subst sc'.
-      destruct o as [e|]; red1.
-      + destruct (push cfg ncap v e s1) as [[u| | | | |] s2] eqn:Ep; red1; try reflexivity.
-        subst REC. change (40 + S F)%nat with (S (40 + F)).
-        apply (IH sc vs' F s2 Evs); simpl in Hk; lia.
-      + subst REC. change (40 + S F)%nat with (S (40 + F)).
-        cbv [WHE extend__MiniVec__extend_2_ast fn_body]. rewrite exec_while.
-        remember (xstmt (40 + F)) as REC eqn:EREC.
-        eve. rewrite Evs. apply HK.
+    eve. rewrite ?ints_of_map. red1.
+    destruct (iter_next sc s) as [[[o sc']| | | | |] s1] eqn:En; red1; try reflexivity.
+    pose proof (iter_next_rest _ _ _ _ _ En) as Hsc.
+    destruct o as [e|]; red1.
+    - rewrite ?ints_of_map.
+      match goal with
+      | |- context [("__it", VCtor "Script" (map VInt ?t))] =>
+          replace t with sc' by (rewrite Hsc; reflexivity)
+      end.
+      destruct (push cfg ncap v e s1) as [[u| | | | |] s2] eqn:Ep; red1; try reflexivity.
+      subst REC. change (40 + S F)%nat with (S (40 + F)).
+      apply (IH sc' (map VInt sc') F s2 eq_refl); [|lia].
+      destruct sc as [|a sc0]; [exfalso; exact (iter_next_nil _ _ _ _ En)|].
+      cbn in Hsc. subst sc'. simpl in Hk. lia.
+    - subst REC. change (40 + S F)%nat with (S (40 + F)).
+      cbv [WHE extend__MiniVec__extend_2_ast fn_body]. rewrite exec_while.
+      remember (xstmt (40 + F)) as REC eqn:EREC.
+      eve. apply HK.
   Qed.
 
   (* ---- the whole body ---- *)
@@ -146,6 +147,7 @@ Section EquivExtend.
     cbv [extend__MiniVec__extend_2_ast fn_body fn_params FUEL combine rev app].
     change (120 + F)%nat with (S (119 + F)). rewrite exec_block_S.
     unfold lift_m, extend.
+    remember (extend_loop cfg ncap (S (List.length sc)) v sc s) as R eqn:ER.
     change (119 + F)%nat with (S (118 + F)).
     rewrite exec_stmts_cons. change (118 + F)%nat with (S (117 + F)). rewrite exec_sexpr_block.
     change (117 + F)%nat with (S (116 + F)). rewrite exec_block_S.
@@ -160,8 +162,9 @@ Section EquivExtend.
     match goal with
     | |- xstmt _ WHE _ _ ?kr ?K = _ =>
         assert (HK : it_blind K v (VCtor "Script" vs)) by (intros vs1 vs2 s0; reflexivity);
-        rewrite (loop_equivE v (VCtor "Script" vs) kr K HK (S (List.length sc)) sc vs (72 + F)%nat s Evs) by lia
+        rewrite (loop_equivE v (VCtor "Script" vs) kr K HK (S (List.length sc)) sc vs (72 + F)%nat s Evs) by (unfold answer in *; lia)
     end.
-    destruct (extend_loop cfg ncap (S (List.length sc)) v sc s) as [[sc'| | | | |] s2]; cbv [after_loopE]; try reflexivity.
+    rewrite <- ER.
+    destruct R as [[sc'| | | | |] s2]; cbv [after_loopE]; try reflexivity.
   Qed.
 End EquivExtend.
